@@ -10,14 +10,14 @@ NOTE_COMMON = ("Trusted: Coq 8.16.1 kernel + vm_compute; the hand-written Gallin
 CLAIMED = {
  "C01": ("Coq proof: exact model = firmware recurrence for every tick count (induction) + correspondence",
          "Theorem C01_exact: for all integers and every T>=1 the exact-arithmetic model of move_dist_lt equals the tick-by-tick firmware recurrence (both accumulator forms, "
-         "both clear values), remainder in [0,2^31); aliases equal. Theorem C01_rounding_exact: with every mpmath operation of move_dist_lt followed by ANY rounding operator that leaves 103-bit numbers unchanged "
+         "both clear values), remainder in [0,2^31); aliases equal. Theorems C01_rounding_exact / C01_rounding_exact_rne (Proofs/RndProofs.v proves the executable round-to-nearest-even Base.Rnd.round_ne to be such an operator: respects ==, monotone, fixes p-bit numbers, relative error <= 2^-p; mpmath's operations are compared with it on generated operands every run): with every mpmath operation of move_dist_lt followed by ANY rounding operator that leaves 103-bit numbers unchanged "
          "(dps = 30), the rounded computation equals the exact one for |rate| <= 2^33, |accel| <= 2^32, T <= 2^32, accumulator in [0,2^31) - the 30-digit arithmetic the code forces is exact on the domain. The model is tied to ebb_calc.py/ebb_motion.py by running both on firmware-valid inputs (T up to 2^32-1) "
          "under varying ambient mpmath precision; every implementation output is also checked against the proved O(1) closed form of the recurrence.",
          NOTE_COMMON + "move_dist_lt is re-translated from the source on every run (tools/py2v.py, mpmath calls read as exact arithmetic) and proved equal to the model. That mpmath rounds each operation to 103 bits leaving representable values unchanged (correct rounding) and that the float quotient accel/2 truncates exactly are assumptions about mpmath / CPython, sampled here under six ambient precisions.",
          "DESIGN.md section 5, C01"),
  "C02": ("Coq proof: exact models = third-order recurrence for every tick count (induction) + correspondence",
          "Theorems C02_exact_dist / C02_exact_rate / C02_zero_jerk: for all integers and every T>=1 the exact models of move_dist_t3 and rate_t3 equal the tick-by-tick third-order "
-         "recurrence incl. the three-tick clear rule; zero jerk coincides with move_dist_lt. Theorem C02_rounding: with every mpmath operation of move_dist_t3 rounded by ANY operator that fixes 103-bit numbers and has "
+         "recurrence incl. the three-tick clear rule; zero jerk coincides with move_dist_lt. Theorems C02_rounding / C02_rounding_rne / C02_rate_float_exact_rne (instances for the executable round-to-nearest-even, Proofs/RndProofs.v): with every mpmath operation of move_dist_t3 rounded by ANY operator that fixes 103-bit numbers and has "
          "relative error <= 2^-102, the error reaching round() is at most 1/4 on the domain (|rate| <= 2^33, |accel|, |jerk| <= 2^32, T <= 2^32, |jerk| T <= 2^33), the exact total is an integer and the snap test takes the same branch, so the rounded computation equals the exact one. Correspondence with ebb_calc.py over the firmware-valid domain under varying mpmath precision.",
          NOTE_COMMON + "move_dist_t3 and rate_t3 are re-translated from the source on every run (tools/py2v.py) and proved equal to the model. C02_rate_float_exact: rate_t3 in binary64 arithmetic equals the exact one for any rounding that fixes binary64 numbers. That mpmath's and CPython's operations are such roundings is assumed, sampled here under six ambient precisions.",
          "DESIGN.md section 5, C02"),
@@ -103,7 +103,7 @@ CLAIMED = {
          "Spec/Board.v reply by reply on every run.",
          NOTE_COMMON + "The board model is an assumption (docstrings / public command reference); no firmware source is available offline.", "DESIGN.md section 5, C16"),
  "C17": ("Coq proof: discrete convexity argument over Z for all integers and all T + correspondence",
-         "Theorems C17_is_a_tick, C17_ends, C17_within_jerk, C17_limit, C17_oracle_is_peak, C17_float_exact: for all integers and every T>=1 the exact model of max_rate_t3 reports the absolute rate of some tick 1..T, "
+         "Theorems C17_is_a_tick, C17_ends, C17_within_jerk, C17_limit, C17_oracle_is_peak, C17_float_exact, C17_float_exact_rne (the executable round-to-nearest-even at 53 bits is proved to be such a rounding; CPython's operations are compared with it on generated operands every run): for all integers and every T>=1 the exact model of max_rate_t3 reports the absolute rate of some tick 1..T, "
          "at least both end rates, and every tick's absolute rate is within |jerk| of it. Correspondence with ebb_calc.max_rate_t3 on vertex-boundary families.",
          NOTE_COMMON + "rate_t3 and max_rate_t3 are re-translated from the source on every run (tools/py2v.py) and proved equal to the model. C17_float_exact: the float computation (binary64 quotient t_mid, its two comparisons, math.ceil, rate_t3's float expression) equals the exact model on the whole domain for every monotone rounding operator that fixes binary64 numbers (that IEEE round-to-nearest is one is trusted). The O(1) peak used to judge outputs is proved to be the true peak (C17_oracle_is_peak).",
          "DESIGN.md section 5, C17"),
